@@ -277,6 +277,8 @@ pub struct Watch {
     pub last_id: ReloadId,
     /// growths observed by polling after every pass, since the last check
     pub growths: u32,
+    /// growths since the watcher / global flag were last asked
+    pub since_asked: u32,
 }
 
 pub struct Runner {
@@ -395,7 +397,7 @@ impl Runner {
                     if !self.watches.is_empty() {
                         let _ = world::typed_reloaded_global(any, key.0, &key.1);
                     }
-                    self.watches.insert(key, Watch { watcher, last_id, growths: 0 });
+                    self.watches.insert(key, Watch { watcher, last_id, growths: 0, since_asked: 0 });
                 }
             }
         }
@@ -417,6 +419,7 @@ impl Runner {
             if let Some(id) = world::typed_reload_id(any, key.0, &key.1) {
                 if id != w.last_id {
                     w.growths += 1;
+                    w.since_asked += 1;
                     w.last_id = id;
                 }
             }
